@@ -38,9 +38,10 @@ type corpus struct {
 type unionCase struct {
 	Blend   float64      `json:"blend"` // 0 = plain minimum, k > 0 = PolyMin(k)
 	P       [2]float64   `json:"p"`
-	Circles [][3]float64 `json:"circles"` // x, y, r
-	Boxes   [][4]float64 `json:"boxes"`   // cx, cy, sx, sy
-	Empty   [][4]float64 `json:"empty"`   // cx, cy, gap, size: Intersect2D of two disjoint boxes at cx-gap and cx+gap (no solid point in its box)
+	Circles [][3]float64 `json:"circles"`          // x, y, r
+	Boxes   [][4]float64 `json:"boxes"`            // cx, cy, sx, sy
+	Nested  int          `json:"nested,omitempty"` // 1: the first two operands form an inner plain Union2D; 2: the inner union gets the blend AFTER the outer was built
+	Empty   [][4]float64 `json:"empty"`            // cx, cy, gap, size: Intersect2D of two disjoint boxes at cx-gap and cx+gap (no solid point in its box)
 }
 
 func rat(x float64) *big.Rat { return new(big.Rat).SetFloat64(x) }
@@ -265,19 +266,44 @@ func check(c *Ctx, r *Report) error {
 		if len(ops) < 2 {
 			return
 		}
+		// nested unions: the operands of the outer union are what the caller passed, the inner union included
+		var inner *sdf.UnionSDF2
+		if u.Nested > 0 && len(ops) >= 3 {
+			inner = sdf.Union2D(ops[0], ops[1]).(*sdf.UnionSDF2)
+			bbi := inner.BoundingBox()
+			ops = append([]sdf.SDF2{inner}, ops[2:]...)
+			terms = append([]string{fmt.Sprintf("((%s,%s,%s,%s), %s)", CF(bbi.Min.X), CF(bbi.Min.Y), CF(bbi.Max.X), CF(bbi.Max.Y), CF(inner.Evaluate(p)))}, terms[2:]...)
+		}
 		un := sdf.Union2D(ops...).(*sdf.UnionSDF2)
 		bl := "None"
 		if u.Blend > 0 {
 			un.SetMin(sdf.PolyMin(u.Blend))
 			bl = "(Some " + CF(u.Blend) + ")"
 		}
+		if inner != nil && u.Nested == 2 {
+			inner.SetMin(sdf.PolyMin(0.25)) // the operand changes after the outer union was built
+			bbi := inner.BoundingBox()
+			terms[0] = fmt.Sprintf("((%s,%s,%s,%s), %s)", CF(bbi.Min.X), CF(bbi.Min.Y), CF(bbi.Max.X), CF(bbi.Max.Y), CF(inner.Evaluate(p)))
+		}
 		ge, gs := un.Evaluate(p), un.EvaluateSlow(p)
+		// the fold over the operands the caller passed, evaluated here
+		manual := ops[0].Evaluate(p)
+		for _, o := range ops[1:] {
+			if u.Blend > 0 {
+				manual = sdf.PolyMin(u.Blend)(manual, o.Evaluate(p))
+			} else {
+				manual = math.Min(manual, o.Evaluate(p))
+			}
+		}
 		cu.Add(fmt.Sprintf("(%d%%N, %s, (%s,%s), %s, %s, %s)", id, bl, CF(p.X), CF(p.Y), CList(terms), CF(ge), CF(gs)))
 		b, _ := json.Marshal(u)
 		key := "union:" + string(b)
 		r.Case("union/"+stratum, key, len(ops) >= 2)
 		if u.Blend == 0 && ge != gs {
 			r.Violate(key, fmt.Sprintf("Union2D (plain minimum): pruned Evaluate = %v but exhaustive EvaluateSlow = %v", ge, gs), u)
+		}
+		if (u.Blend == 0 && ge != manual) || (u.Blend > 0 && (ge < 0) != (manual < 0)) {
+			r.Violate(key, fmt.Sprintf("Union2D Evaluate = %v but folding the values of the operands that were passed gives %v (blend %v, nested %d)", ge, manual, u.Blend, u.Nested), u)
 		}
 		if u.Blend > 0 && (ge < 0) != (gs < 0) {
 			r.Violate(key, fmt.Sprintf("Union2D with PolyMin(%v): pruned Evaluate = %v and exhaustive EvaluateSlow = %v differ in sign", u.Blend, ge, gs), u)
@@ -307,6 +333,9 @@ func check(c *Ctx, r *Report) error {
 			} else {
 				u.Boxes = append(u.Boxes, [4]float64{x, y, float64(rng.Range(1, 40)) / 8, float64(rng.Range(1, 40)) / 8})
 			}
+		}
+		if k%4 == 3 && n >= 3 {
+			u.Nested = 1 + k%8/4
 		}
 		if k%6 == 1 {
 			// an operand whose solid is empty (its box is not): pruning must not rely on material in the box
